@@ -7,10 +7,15 @@
 (*   AcceptMode = "loop"     accept until WouldBlock            (required)  *)
 (*                "one"      one accept per readiness event     (pinned, D5)*)
 (*                "bounded"  at most MaxAccepts per event       (wrong)     *)
+(* A peer may ABORT its connection (RST) while it still waits in the        *)
+(* accept queue: accept() returns it all the same, the write fails, and     *)
+(* the loop goes on with the next connection.                               *)
+(*   AbortEndsLoop = FALSE   as coded and required                          *)
+(*                   TRUE    a failed write ends the accept loop (wrong)    *)
 (***************************************************************************)
 EXTENDS Naturals, Sequences, TLC
 
-CONSTANTS MaxConns, AcceptMode, MaxAccepts
+CONSTANTS MaxConns, AcceptMode, MaxAccepts, AbortEndsLoop
 
 VARIABLES hcq,       \* accept queue: connection ids
           hcEdge,    \* edge-triggered readiness pending
@@ -18,15 +23,17 @@ VARIABLES hcq,       \* accept queue: connection ids
           acc,       \* accepts done in the current event
           answered,  \* set of answered connections
           conns,     \* connections made so far
+          kinds,     \* kinds[k] = "L" (live) | "A" (aborted by the peer before it is accepted) of connection k
           sched      \* observation: how many connections were pending before each accept of the run
 
-vars == <<hcq, hcEdge, pc, acc, answered, conns, sched>>
-view == <<hcq, hcEdge, pc, acc, answered, conns>>
+vars == <<hcq, hcEdge, pc, acc, answered, conns, kinds, sched>>
+view == <<hcq, hcEdge, pc, acc, answered, conns, kinds>>
 
-Init == hcq = <<>> /\ hcEdge = FALSE /\ pc = "poll" /\ acc = 0 /\ answered = {} /\ conns = 0
+Init == hcq = <<>> /\ hcEdge = FALSE /\ pc = "poll" /\ acc = 0 /\ answered = {} /\ conns = 0 /\ kinds = <<>>
         /\ sched = [pre |-> 0, during |-> <<>>]
 
-Connect == /\ conns < MaxConns
+Connect(kind) ==
+           /\ conns < MaxConns /\ kinds' = Append(kinds, kind)
            /\ conns' = conns + 1 /\ hcq' = Append(hcq, conns + 1) /\ hcEdge' = TRUE
            /\ sched' = IF pc = "poll" /\ answered = {} /\ acc = 0 THEN [sched EXCEPT !.pre = @ + 1]
                        ELSE [sched EXCEPT !.during = Append(@, acc)]     \* arrives after `acc` accepts of this event
@@ -34,21 +41,23 @@ Connect == /\ conns < MaxConns
 
 Poll == /\ pc = "poll" /\ hcEdge
         /\ hcEdge' = FALSE /\ pc' = "accept" /\ acc' = 0
-        /\ UNCHANGED <<hcq, answered, conns, sched>>
+        /\ UNCHANGED <<hcq, answered, conns, kinds, sched>>
 
 Accept == /\ pc = "accept"
           /\ IF hcq = <<>> THEN pc' = "poll" /\ UNCHANGED <<hcq, answered, acc>>          \* WouldBlock
-             ELSE /\ answered' = answered \cup {Head(hcq)} /\ hcq' = Tail(hcq) /\ acc' = acc + 1
-                  /\ pc' = IF AcceptMode = "one" \/ (AcceptMode = "bounded" /\ acc + 1 >= MaxAccepts) THEN "poll" ELSE "accept"
-          /\ UNCHANGED <<hcEdge, conns, sched>>
+             ELSE /\ answered' = (IF kinds[Head(hcq)] = "L" THEN answered \cup {Head(hcq)} ELSE answered)   \* the write to an aborted one fails
+                  /\ hcq' = Tail(hcq) /\ acc' = acc + 1
+                  /\ pc' = IF AcceptMode = "one" \/ (AcceptMode = "bounded" /\ acc + 1 >= MaxAccepts)
+                               \/ (AbortEndsLoop /\ kinds[Head(hcq)] = "A") THEN "poll" ELSE "accept"
+          /\ UNCHANGED <<hcEdge, conns, kinds, sched>>
 
 Worker == Poll \/ Accept
-Next == Worker \/ Connect
+Next == Worker \/ \E kind \in {"L", "A"} : Connect(kind)
 Spec == Init /\ [][Next]_vars /\ WF_vars(Worker)
 
 \* no connection is left behind without a pending readiness event
 NoStrandedConn == (pc = "poll" /\ ~hcEdge) => hcq = <<>>
-\* every connection is eventually answered
-HcLive == \A k \in 1..MaxConns : [](conns >= k => <>(k \in answered))
+\* every connection that stays open is eventually answered
+HcLive == \A k \in 1..MaxConns : []((conns >= k /\ kinds[k] = "L") => <>(k \in answered))
 AnsweredWereMade == \A k \in answered : k <= conns
 =============================================================================
